@@ -8,10 +8,11 @@ from . import C06
 
 EXPLANATION = (
     "C03 structural clauses: (C03.1) every scan entry point returns Bounds(Pruning(Merging(components))) with the captured "
-    "timestamp in the pruning stage and the caller's bounds in the bounds stage; the store's components are the scans of "
-    "mem, imm (when present) and the version; the version's components are Pruning(Lazy(file)) for every L0 file and "
-    "Concatenating(Pruning(Lazy(file))...) per deeper level for every file whose key range overlaps the bounds; memtable, "
-    "SST and block scans have the same Bounds(Pruning(raw cursor)) shape; (C03.2) exhaustion tests go through key() "
+    "timestamp in the single pruning stage and the caller's bounds in the bounds stage; no component is pruned before the "
+    "merge (a tombstone dropped per component could not shadow an older component's value: finding F10); the store's "
+    "components are the scans of mem, imm (when present) and the version; the version's components are Lazy(file) for "
+    "every L0 file and Concatenating(Lazy(file)...) per deeper level for every file whose key range overlaps the bounds; "
+    "stand-alone SST and block scans are Bounds(Pruning(raw cursor)); (C03.2) exhaustion tests go through key() "
     "(C11.1); (C03.3) the snapshot is captured atomically (C06.3 rules).  ORIGIN chains, loop-body MUSTPASS, GUARDED.")
 NOT_DECIDED = ("ordering, exactly-once, seek landing and scan/point-read agreement: semantics of the combinators over all "
                "inputs and call programs (C11), not visible in code shape")
@@ -64,14 +65,18 @@ def c031_store(ctx):
         for s in imm_site:
             p = P.reach(f, P.after(f, s), mc, avoid=set(imm_push) | set(P.error_points(f)))
             ctx.check(R, f, "pushed:imm scan", p is None and bool(imm_push), "when imm exists its scan is pushed", "the imm scan can be created and not merged", pt=s, path=p)
-        # timestamps and bounds
+        # the single pruning stage sits after the merge and takes the captured snapshot timestamp
         tsf = C06.reader_timestamp_fields(ctx, R)
-        for pt in P.call_points(f, r"pruning_cursor::PruningCursor::new$") + P.call_points(f, r"memtable::MemTable::range_scan$") + P.call_points(f, r"VersionRef::range_scan$"):
+        prs = ctx.calls(R, f, r"pruning_cursor::PruningCursor::new$")
+        ctx.check(R, f, "one-pruning-stage", len(prs) == 1, "exactly one pruning stage (after the merge)", "the store scan has %d pruning stages" % len(prs))
+        for pt in prs:
             t = P.term_at(f, pt)
-            idx = 1 if (callee_skey(t) or "").endswith("PruningCursor::new") else 3
-            flds = {n for (_o, n) in P.origin_fields(f, t["args"][idx])}
-            ctx.check(R, f, "timestamp", bool(flds & tsf), "%s takes the captured snapshot timestamp" % P.short(callee_skey(t)),
-                      "%s is not given the captured snapshot timestamp" % P.short(callee_skey(t)), pt=pt)
+            flds = {n for (_o, n) in P.origin_fields(f, t["args"][1])}
+            ctx.check(R, f, "timestamp", bool(flds & tsf), "the pruning stage takes the captured snapshot timestamp",
+                      "the pruning stage is not given the captured snapshot timestamp", pt=pt)
+            ctx.check(R, f, "prune-after-merge", K.origin_chain(f, t["args"][0], ["MergingCursor::new"]), "what is pruned is the merged stream",
+                      "the pruning stage is not applied to the merged stream", pt=pt)
+        no_prune_before_merge(ctx, R, f, mc)
         for pt in P.call_points(f, r"bounds_cursor::BoundsCursor::new$"):
             t = P.term_at(f, pt)
             ok = any(s["k"] == "param" and s["i"] == 2 for s in P.origins(f, t["args"][1])) and any(s["k"] == "param" and s["i"] == 3 for s in P.origins(f, t["args"][2]))
@@ -86,13 +91,45 @@ def c031_store(ctx):
         ctx.must_pass(R, f, "Version::range_scan", ctx.calls(R, f, r"lsmtk::tree::Version::range_scan$"), goals=P.return_points(f))
 
 
-def chain_of_store(f, op, suffixes):
-    return K.origin_chain(f, op, suffixes)
+def pruned_before(ctx, f, op, depth=5):
+    """Does the value reaching `op` come out of a PruningCursor (directly, or built by a workspace function that
+    returns Pruning(..))?  Tombstones dropped before the merge cannot shadow older components."""
+    for s in P.origins(f, op):
+        if s["k"] == "agg" and s.get("adt") and depth > 0:
+            for o in s["st"]["rv"]["ops"]:
+                r = pruned_before(ctx, f, o, depth - 1)
+                if r:
+                    return r
+        if s["k"] != "call":
+            continue
+        if s["callee"].endswith("PruningCursor::new"):
+            return (f, s["pt"])
+        if re.search(r"Cursor::new$", s["callee"]) and depth > 0 and s["t"]["args"]:
+            r = pruned_before(ctx, f, s["t"]["args"][0], depth - 1)
+            if r:
+                return r
+        if depth > 0 and re.search(r"::(range_scan|cursor|scan)$", s["callee"]):
+            for k in ctx.prog.targets(s["t"]):
+                g = ctx.prog.fns.get(k)
+                if g and g.crate in ("lsmtk", "sst") and g is not f:
+                    r = pruned_before(ctx, g, RET, depth - 1)
+                    if r:
+                        return r
+    return None
+
+
+def no_prune_before_merge(ctx, R, f, merge_pts):
+    for pt in merge_pts:
+        r = pruned_before(ctx, f, P.term_at(f, pt)["args"][0])
+        ctx.check(R, f, "tombstones-reach-the-merge", r is None,
+                  "no component of the merged scan is pruned before the merge (tombstones can shadow older components)",
+                  "a component of the merged scan is pruned before the merge (%s): its tombstones cannot shadow the same key in an older component, "
+                  "so a deleted key reappears in scans" % (("%s at %s" % (r[0].skey, P.pt_loc(r[0], r[1]))) if r else ""), pt=pt)
 
 
 def c031_version(ctx):
     R = "C03.1v"
-    ctx.declare(R, "a version scan merges Pruning(Lazy(file)) of every L0 file and Concat(Pruning(Lazy(file))..) of every overlapping deeper file")
+    ctx.declare(R, "a version scan merges Lazy(file) of every L0 file and Concat(Lazy(file)..) of every overlapping deeper file, unpruned")
     f = ctx.fn(R, "lsmtk::tree::Version::range_scan")
     if not f:
         return
@@ -100,14 +137,9 @@ def c031_version(ctx):
     mc = ctx.calls(R, f, r"merging_cursor::MergingCursor::new$")
     ctx.check(R, f, "pipeline", ok, "returns MergingCursor::new(cursors)", "Version::range_scan no longer returns the merged cursor")
     pushes = P.call_points(f, r"alloc::vec::Vec.*::push$")
-    pr = ctx.calls(R, f, r"pruning_cursor::PruningCursor::new$", floor=2)
-    for pt in pr:
-        t = P.term_at(f, pt)
-        ctx.check(R, f, "pruned-lazy", K.origin_chain(f, t["args"][0], ["LazyCursor::new"]), "PruningCursor wraps a LazyCursor",
-                  "a file cursor is not Pruning(Lazy(..))", pt=pt)
-        ctx.check(R, f, "timestamp", any(s["k"] == "param" and s["i"] == 6 for s in P.origins(f, t["args"][1])), "with the scan's timestamp",
-                  "a file's PruningCursor is not given the scan's timestamp", pt=pt)
-    direct = [p for p in pushes if K.origin_chain(f, P.term_at(f, p)["args"][1], ["PruningCursor::new", "LazyCursor::new"])]
+    no_prune_before_merge(ctx, R, f, mc)
+    direct = [p for p in pushes if K.origin_chain(f, P.term_at(f, p)["args"][1], ["LazyCursor::new"]) and
+              not K.origin_chain(f, P.term_at(f, p)["args"][1], ["ConcatenatingCursor::new"])]
     concat = [p for p in pushes if K.origin_chain(f, P.term_at(f, p)["args"][1], ["ConcatenatingCursor::new"])]
     ctx.check(R, f, "push-kinds", len(direct) == 2 and len(concat) == 1,
               "pushes: L0 file -> cursors, deeper file -> this_level_cursors, level -> cursors (as ConcatenatingCursor)",
@@ -123,6 +155,7 @@ def c031_version(ctx):
         level_vec |= K.user_locals(f, P.term_at(f, c_)["args"][0])
     merged_vec -= level_vec
     l0_push = [p for p in direct if K.user_locals(f, P.term_at(f, p)["args"][0]) & merged_vec and not (K.user_locals(f, P.term_at(f, p)["args"][0]) & level_vec)]
+    lv_push = [p for p in direct if p not in l0_push]
     lv_push = [p for p in direct if p not in l0_push]
     for pts, label in ((l0_push, "L0 file"), ):
         hs = [h for h in heads if pts and P.reach(f, P.after(f, h), pts, avoid=set(heads) - {h})]
@@ -165,8 +198,8 @@ def c031_version(ctx):
 
 def c031_leaves(ctx):
     R = "C03.1l"
-    ctx.declare(R, "memtable, SST and block scans are Bounds(Pruning(raw cursor)) at the given timestamp and bounds")
-    for key, chain in (("lsmtk::kvs::memtable::MemTable::range_scan", ["BoundsCursor::new", "PruningCursor::new"]),
+    ctx.declare(R, "stand-alone SST and block scans are Bounds(Pruning(raw cursor)) at the given timestamp and bounds; a memtable scan (always merged) is Bounds(raw cursor)")
+    for key, chain in (("lsmtk::kvs::memtable::MemTable::range_scan", ["BoundsCursor::new"]),
                        ("sst::Sst::range_scan", ["BoundsCursor::new", "PruningCursor::new", "Sst::cursor"]),
                        ("sst::block::Block::range_scan", ["BoundsCursor::new", "PruningCursor::new", "Block::cursor"])):
         f = ctx.fn(R, key)
